@@ -1,0 +1,30 @@
+//go:build verif
+
+package crlrepository
+
+import (
+	"crypto/x509"
+	"errors"
+
+	"github.com/gr33nbl00d/caddy-revocation-validator/core"
+	"github.com/gr33nbl00d/caddy-revocation-validator/crl/crlstore"
+)
+
+// Verification-only accessors (build tag verif) for the fail-closed property: they run the real
+// updateEntry / checkCrl on a named entry and change no behaviour.
+
+// VerifUpdateEntry runs the swap step of a refresh (updateEntry) for the entry under identifier with the
+// given new store, exactly as updateCrlEntry does, but without dropping the entry from the repository
+// afterwards: this is the state a goroutine sees that already holds the entry while the swap fails.
+func (R *Repository) VerifUpdateEntry(identifier string, store crlstore.CRLStore) error {
+	entry := R.getEntrySync(identifier)
+	if entry == nil {
+		return errors.New("no entry for identifier")
+	}
+	return R.updateEntry(entry, nil, store)
+}
+
+// VerifCheckCrl exposes checkCrl.
+func (R *Repository) VerifCheckCrl(certificate *x509.Certificate, identifier string) (*core.RevocationStatus, error) {
+	return R.checkCrl(certificate, identifier)
+}
